@@ -493,8 +493,7 @@ theorem putL_abs {st : State} (h : SInv st) (c : Var) (hk : c.k = .L) (hv : c.va
         refine ⟨(allocBlock_ok h c hfr ha hv).1, by simp [allocBlock], rfl, ?_, by simp [allocBlock, ha]⟩
         simp only [allocBlock, setNode_get]
         intro he
-        have := (newSlots_mem c.k st.next ⟨st.next, 0⟩).mpr ⟨rfl, Nat.zero_lt_succ 3⟩
-        rw [he] at this; cases this
+        exact newSlots_ne_nil _ _ _ (st.per.pos c.k) he
       · rw [if_neg hc]
         exact ⟨h, rfl, rfl, fun he => by rw [he] at hc; exact hc rfl, ha⟩
     rw [← hst2]
